@@ -170,6 +170,19 @@ FromStabOK == Rec.op = "fromstab" =>
     /\ (~anti) => /\ Has("post") /\ TOK(Rec.post)
                   /\ TGrp(Rec.post) = Span(ops, n)
                   /\ Rec.post.r = n - Len(ops)
+\* utils.decompose (used by nobody, promised by no property: model drift only): sigma(g) = i^phase * (selected
+\* destabilizers, in order) * (selected stabilizers, in order); destabilizer i is selected iff g anticommutes with
+\* stabilizer i and vice versa
+RECURSIVE ProdSel(_, _, _, _, _, _)
+ProdSel(acc, rows, sel, off, i, n) == IF i > n THEN acc
+    ELSE ProdSel(IF sel[i] = 1 THEN Mul(acc, rows[off + i]) ELSE acc, rows, sel, off, i + 1, n)
+Drift_Decompose == Rec.op = "decompose" =>
+    /\ ~Has("raised")
+    /\ LET rows == TRows(Rec.pre)  n == Len(rows) \div 2  P == Dec(Rec.p)
+        R == ProdSel(ProdSel(Id(n), rows, Rec.b, n, 1, n), rows, Rec.c, 0, 1, n) IN
+       /\ \A i \in 1..n : Rec.b[i] = (IF Anti(P, rows[i]) THEN 1 ELSE 0) /\ Rec.c[i] = (IF Anti(P, rows[n + i]) THEN 1 ELSE 0)
+       /\ Dec(Rec.tmp) = P
+       /\ Ph(R, Rec.phase) = P
 \* wide registers (N > 64): the tableau invariant itself (it implies independence and -1 \notin group; the group is
 \* too large to enumerate), rank untouched by a unitary circuit
 WideCircOK == (Rec.op = "widecirc" /\ ~Has("exc")) =>
